@@ -121,18 +121,17 @@ def falsify(ctx):
     for samples in CORPUS:
         for fw in common.FRAMEWORKS:
             cases.append(([("Root", samples)], fw))
-    for m in ctx.focus:
-        if m and "samples" in m:
-            cases.append(([("Root", m["samples"])], None))
-        elif m and "inputs" in m:
-            cases.append(([tuple(x) for x in m["inputs"]], None))
+    fcmps = {}
+    for inputs, cm, _ in common.focus_cases(ctx):
+        fcmps[len(cases)] = cm
+        cases.append((inputs, None))
     n = ctx.n(220, 6000)
     for i in range(len(cases) + n):
         if i < len(cases):
             inputs, fw = cases[i]
         else:
             inputs, fw = common.gen_inputs(rng, styled_p=0.2), None
-        cmps = common.cmps_choice(rng)
+        cmps = fcmps.get(i) or common.cmps_choice(rng)
         job = common.gen_job(rng, fw=fw)
         job["preamble"] = None
         try:
